@@ -127,6 +127,16 @@ func propC01Perft(c perftCase, o *hx.Obs) *hx.Failure {
 	return nil
 }
 
+// positions in which the same position occurs as consecutive nodes of one perft depth (a promotion
+// capture with a forced recapture: bxa1=Q Kxa1 and bxa1=N Kxa1 ...), found by the thorough tier
+var perftRegressionFENs = []string{
+	"8/8/8/8/8/8/Pp1p4/NKnk4 b - - 0 1",
+	"4knKN/4P1pP/8/8/8/8/8/8 w - - 0 1",
+	"8/8/8/8/8/8/1p6/RK1k4 b - - 0 1",
+	"8/8/8/8/8/8/2p5/1R1k3K b - - 0 1",
+	"4k1KR/6P1/8/8/8/8/8/8 w - - 0 1",
+}
+
 func TestC01(t *testing.T) {
 	r := hx.NewRec(t, "C01")
 	defer r.Finish()
@@ -162,8 +172,29 @@ func TestC01(t *testing.T) {
 		}
 	}, propC01Tree)
 
-	hx.Sub(r, "perft", r.N(150, 1200), func(t *rapid.T) perftCase {
+	// saved failing inputs of earlier campaigns, replayed as plain regression cases (both perft variants)
+	hx.Enum(r, "perft-regressions", false, func(yield func(perftCase) bool) {
+		for _, f := range perftRegressionFENs {
+			if q, err := rc.ParseFEN(f); err != nil || q.Validate() != nil {
+				panic("harness: invalid regression FEN " + f)
+			}
+			for _, od := range []bool{true, false} {
+				if !yield(perftCase{Fen: f, Depth: 3, OnDemand: od}) {
+					return
+				}
+			}
+		}
+	}, propC01Perft)
+
+	hx.Sub(r, "perft", r.N(400, 2500), func(t *rapid.T) perftCase {
 		p := hx.GenPosition(t)
-		return perftCase{Fen: p.FEN(), Depth: rapid.IntRange(1, r.N(3, 4)).Draw(t, "depth"), OnDemand: rapid.Bool().Draw(t, "od")}
+		d := rapid.IntRange(1, r.N(3, 4)).Draw(t, "depth")
+		// few pieces + depth 3-4: many transpositions inside one perft tree (the same position as
+		// consecutive nodes of a depth), which is what the on-demand variant has to survive
+		if rapid.IntRange(0, 2).Draw(t, "transpositions") == 0 {
+			p = hx.GenConstructed(t, 4)
+			d = rapid.IntRange(3, 4).Draw(t, "tdepth")
+		}
+		return perftCase{Fen: p.FEN(), Depth: d, OnDemand: rapid.Bool().Draw(t, "od")}
 	}, propC01Perft)
 }
